@@ -126,6 +126,7 @@ def run(rep, tier):
     rep.floor('route modules emitted', nmods, 26)
     rep.floor('call sites examined', stats['callsites'], 200)
     # C.parse(args) instantiates the class template with the caller's values: captured outside the entry closure
+    from . import shared
     shared.entry_closure_rule(rep)
     # a parameter is a reference with the weakest summary: it may fail after consuming (the argument
     # can be any parsing expression), so Ref's static flags must say so for local names too
